@@ -1880,7 +1880,15 @@ fn c04_run(case: &mut Case, rng: &mut Rng) {
         case.ctl("step");
     }
     if rng.chance(1, 4) {
-        // bounce without a crash, and once more
+        // bounce without a crash, and once more — with background tasks of both kinds alive (a task started with
+        // `tokio::spawn` belongs to the runtime, one started with `spawn_local` to the software's task set)
+        if rng.chance(2, 3) {
+            case.ctl("q h0 spawn_rt_ticker");
+            if rng.chance(1, 2) {
+                case.ctl("q h0 spawn_ticker");
+            }
+            case.ctl("step");
+        }
         case.ctl("bounce h0");
         case.ctl("q h0 udp_bind s0 any:9000");
         case.ctl("step");
